@@ -1,0 +1,10 @@
+//go:build verif
+
+package rockredis
+
+// Accessors for the data-layer verification harness (/verif, group Data). Built only with -tags verif.
+
+// VerifListSeqs returns the list sequence constants (listMinSeq, listMaxSeq, listInitialSeq).
+func VerifListSeqs() (int64, int64, int64) {
+	return listMinSeq, listMaxSeq, listInitialSeq
+}
